@@ -22,31 +22,31 @@ add("C03", "exploration",
     "x86-64 TSO executions only; TSan cannot see conflicts between the two virtual aliases of a byte (covered logically by the window-overlap monitor) and reports data races, not insufficient atomic orderings.",
     "runtime monitoring: sequence oracle + window-overlap/conservation monitors over hook events + ThreadSanitizer", "3/C03", "spsc-stress")
 add("C04", "fault_enumeration",
-    "A finite grid of schedule scripts (about 260 scenarios) over ReadStream::wait/eof, WriteStream::wait, NCReadStream::wait/eof, the derive-generated eof() of a block with a packet input, and a 3-thread MTGraph with a gated source: the peer's 'commit last data; go away' is placed before the call, during the blocked wait, at the yield hook between the timed-out wait and the liveness read, commit-only, between liveness and emptiness read, and after the call, for 16 (buffered, need, final) points. The acting thread is parked at the hook by hand-shake (confirmed by the script). Oracle: a 'never'/eof verdict only with the writer gone and less than requested readable; all committed ids drainable afterwards; end of stream reported within 2 waits after the peer left; MTGraph delivers every sample committed before the source exited.",
+    "A finite grid of schedule scripts (about 260 scenarios) over ReadStream::wait/eof, WriteStream::wait, NCReadStream::wait/eof, the derive-generated eof() of a block with a packet input, and a 3-thread MTGraph with a gated source: the peer's 'commit last data; go away' is placed before the call, during the blocked wait, at the yield hook between the timed-out wait and the liveness read, commit-only, between liveness and emptiness read, and after the call, for 16 (buffered, need, final) points. The acting thread is parked at the hook by hand-shake (confirmed by the script). Oracle: a 'never'/eof verdict only with the writer gone and less than requested readable; all committed ids drainable afterwards; end of stream reported within 2 waits after the peer left; MTGraph delivers every sample committed before the source exited. Every wait of a script runs in a supervised thread: a wait that never returns is recognised by the kernel's wake-up counters (state S and an unchanged voluntary-context-switch count for 5 s, where a healthy 100 ms timed wait blocks again ten times a second) and reported as blocked-forever instead of hanging the check.",
     "Cuts are the library's yield hooks (all outside its locks); orders between hooks are reached only by the random delays of C05. Liveness is restated as 'told within 2 wait() calls'.",
     "runtime monitoring with scripted schedules: thread parked at yield hooks inside the check-then-act window", "3/C04", "eos-scripts")
 add("C05", "exploration",
-    "Generated graph programs over ~25 deterministic library blocks (chains of 0-6 stages, tee/merge diamonds with bounded skew, rate changers, packet stages HdlcDeframer->VecToStream; finite VectorSource of 0..5 stream capacities, 1-3 repetitions; streams of 1,2,4,16 pages or default; CollectSink or a VectorSink watched by a second thread) run on the real MTGraph with every block wrapped in a probe, in forward/reverse/random add order, with seeded PCT-style delays injected at yield hooks (incl. >100 ms sleeps so wait time-outs fire). Termination is decided by a logical stuck rule (no data event and no block exit while every live block was called 4 more times), the sink is compared bit-for-bit with the harness's own sequential executor on default streams, and block drop / thread count are checked after run().",
+    "Generated graph programs over ~25 deterministic library blocks (chains of 0-6 stages, tee/merge diamonds with bounded skew, rate changers, packet stages HdlcDeframer->VecToStream; finite VectorSource of 0..5 stream capacities, 1-3 repetitions; streams of 1,2,4,16 pages or default; CollectSink or a VectorSink watched by a second thread) run on the real MTGraph with every block wrapped in a probe, in forward/reverse/random add order, with seeded PCT-style delays injected at yield hooks (incl. >100 ms sleeps so wait time-outs fire). Termination is decided by a logical stuck rule (no data event and no block exit while every live block was called 4 more times), the sink is compared bit-for-bit with the harness's own sequential executor on default streams, and block drop / thread count are checked after run(). Block threads that all sleep without a single wake-up for 5 s while no data moves (kernel counters, see C04) are reported as blocked forever.",
     "Decides only the interleavings produced on this x86-64 machine. The reference executor is harness code that looks at data movement, not verdicts. Diamonds are generated with equal rates and skew <= capacity/8 (an unbalanced diamond deadlocks by dataflow construction).",
     "runtime monitoring: differential oracle vs sequential reference under injected schedule noise + logical stuck detector", "3/C05", "graph-programs")
 add("C06", "exploration",
-    "The same generated programs on the single-threaded Graph in forward, reverse and random add orders on 1-16 page streams; a quarter of the programs end in the library's VectorSink while a second thread keeps taking its Hook::data() guard for 20-400 us at a time (a test or UI thread watching the sink). After run() returns Ok, every block is called again through the hook accessor Graph::verif_blocks_mut and no data may move (quiescence probe); then the sink must equal the reference. An early return is classified by whether the pass that decided termination contained a data-moving call with a non-Again verdict (the recorded known finding) or not (reported).",
+    "The same generated programs on the single-threaded Graph in forward, reverse and random add orders on 1-16 page streams; a quarter of the programs end in the library's VectorSink while a second thread keeps taking its Hook::data() guard for 20-400 us at a time (a test or UI thread watching the sink). After run() returns Ok, every block is called again through the hook accessor Graph::verif_blocks_mut and no data may move (quiescence probe); then the sink must equal the reference. An early return is classified by whether the pass that decided termination contained a data-moving call with a non-Again verdict (the recorded known finding) or not (reported). The known finding is keyed by the (block type, verdict direction) pairs of the deciding pass - nine pairs observed in 360 000 runs on the pinned tree; any other pair is reported.",
     "Known finding C06|Graph::run|returned-before-quiescence|final-pass-had-data-moving-non-Again-call is listed in known_findings.json: runs that hit it are not judged further. Any other signature is a violation.",
     "runtime monitoring: quiescence probe at a hook + differential oracle vs sequential reference", "3/C06", "graph-programs")
 add("C07", "fault_enumeration",
-    "Chains of 1-5 blocks behind finite and infinite sources on both runners. Cancellation is injected (i) from an outside thread after a seeded delay, (ii) from the hook callback at the k-th yield event of whichever thread reaches it (k swept), (iii) from inside a block's work(); probes count work() entries that begin after cancel() returned (bound 1 on Graph, 2 on MTGraph), run() must return (stuck detector), blocks dropped and thread count back to baseline. A failing block at every chain position failing on call k in {1,2,5,50}: run() under catch_unwind must return Err carrying the injected message.",
+    "Chains of 1-5 blocks behind finite and infinite sources on both runners. Cancellation is injected (i) from an outside thread after a seeded delay, (ii) from the hook callback at the k-th yield event of whichever thread reaches it (k swept), (iii) from inside a block's work(); probes count work() entries that begin after cancel() returned (bound 1 on Graph, 2 on MTGraph), run() must return (stuck detector), blocks dropped and thread count back to baseline. A failing block at every chain position failing on call k in {1,2,5,50}: run() under catch_unwind must return Err carrying the injected message. A sixth kind triggers the token before run() is entered.",
     "The swept fault points are the yield hooks (every stream operation entry and every peer-liveness read) plus block-internal and external cancellation; points between them are reached only by timing.",
     "runtime monitoring with fault injection: cancellation at swept hook points, failing block at every position", "3/C07", "graph-programs")
 add("C08", "exploration",
-    "Every stream-processing block of the library (42 catalogue entries incl. all sync blocks, Skip, Delay, RationalResampler, FIR/FFT filters, Hilbert, AU codec, RtlSdrDecode, SymbolSync/ZeroCrossing with and without clock output, deframers, StreamToPdu, VecToStream, ToText, FftStream, CMA, WPCR) is run twice on the same seeded parameters and input: one-shot on default streams and under a seeded adversarial drip-feed schedule on 1-4 page streams with the harness as both neighbours, which in a third of the scheduled calls also act inside the call (drain an output / feed an input at the stream operations' yield points, as concurrently running neighbours do under MTGraph); outputs must be bit-identical, every intermediate drain a prefix, and work() must never unwind. Decides chunking independence on the executions produced.",
+    "Every stream-processing block of the library (42 catalogue entries incl. all sync blocks, Skip, Delay, RationalResampler, FIR/FFT filters, Hilbert, AU codec, RtlSdrDecode, SymbolSync/ZeroCrossing with and without clock output, deframers, StreamToPdu, VecToStream, ToText, FftStream, CMA, WPCR) is run twice on the same seeded parameters and input: one-shot on default streams and under a seeded adversarial drip-feed schedule on 1-4 page streams with the harness as both neighbours, which in a third of the scheduled calls also act inside the call (drain an output / feed an input at the stream operations' yield points, as concurrently running neighbours do under MTGraph); outputs must be bit-identical, every intermediate drain a prefix, and work() must never unwind. Decides chunking independence on the executions produced. The quick tier also runs a quarter of its budget under the debug build (debug assertions of the stream API).",
     "Reference = the same implementation run one-shot (a defect that is chunking-independent is C10/C11's business). Floats are compared bitwise. Hooks must be passive.",
     "runtime monitoring: differential oracle (drip-fed vs one-shot run of the real block)", "3/C08", "drip-feed")
 add("C09", "exploration",
-    "On the C08 catalogue and schedules every work() call is observed through the stream hooks; in a third of the scheduled calls the harness additionally acts as the neighbouring blocks inside the call (at the stream operations' yield points, where no lock is held, it drains an output or feeds an input, as concurrent neighbours do under MTGraph) and every commit is then bounded by the window the block was actually handed. Observed per call: samples offered vs moved per stream, handle counts after return, and the stream a wait verdict names (identified by a non-blocking wait(0) probe through a yield hook). After each wait verdict the harness satisfies exactly that request on that stream alone and demands progress or a changed verdict within 3 calls; Again without any stream event is re-called 8 times (idle spin); after the inputs ended and outputs are drained, EOF or a wait on an ended input is demanded within 8 calls.",
+    "On the C08 catalogue and schedules every work() call is observed through the stream hooks; in a third of the scheduled calls the harness additionally acts as the neighbouring blocks inside the call (at the stream operations' yield points, where no lock is held, it drains an output or feeds an input, as concurrent neighbours do under MTGraph) and every commit is then bounded by the window the block was actually handed. Observed per call: samples offered vs moved per stream, handle counts after return, and the stream a wait verdict names (identified by a non-blocking wait(0) probe through a yield hook). After each wait verdict the harness satisfies exactly that request on that stream alone and demands progress or a changed verdict within 3 calls; Again without any stream event is re-called 8 times (idle spin); after the inputs ended and outputs are drained, EOF or a wait on an ended input is demanded within 8 calls. Plus Delay::set_delay() scenarios (delay changed before the first call or at a quiescent point, input ending inside a pending skip): no idle spin.",
     "WaitForFunc is opaque: only moved<=offered, leaks, spin and retirement (with eof()) are judged for it. Bounds 3/8/8 calls are the bounded restatement of 'makes progress' / 'retires'.",
     "runtime monitoring: per-call verdict checker over hook events with active probes", "3/C09", "drip-feed")
 add("C10", "exploration",
-    "Executable specifications written from the documentation (arithmetic/logic/conversion blocks, slicer, NRZI, LFSR descrambler incl. general mask/length, both correlators, Delay, Skip, Tee, RationalResampler out[k]=in[floor(k*D/I)] with count ceil(N*I/D), RtlSdrDecode within 1 ulp, VectorSource, VecToStream, StreamToPdu on well-formed bursts, BurstTagger, ToText) compared exactly with the block's output, both one-shot and drip-fed, on seeded and boundary inputs of 0..3 stream capacities.",
+    "Executable specifications written from the documentation (arithmetic/logic/conversion blocks, slicer, NRZI, LFSR descrambler incl. general mask/length, both correlators, Delay, Skip, Tee, RationalResampler out[k]=in[floor(k*D/I)] with count ceil(N*I/D), RtlSdrDecode within 1 ulp, VectorSource, VecToStream, StreamToPdu on well-formed bursts, BurstTagger, ToText) compared exactly with the block's output, both one-shot and drip-fed, on seeded and boundary inputs of 0..3 stream capacities. Delay is also specified under set_delay() (before the first call or at a quiescent point).",
     "Specifications are the harness author's reading of the documentation; integer blocks are fed only representable results (the crate builds with overflow checks); StreamToPdu only with bursts that fit max_size.",
     "runtime monitoring: executable-specification oracle over generated inputs", "3/C10", "drip-feed")
 add("C11", "exploration",
@@ -66,7 +66,7 @@ add("C16", "exploration",
     "For empty data both EOF and silence are accepted for an infinite repeat. Files hold whole samples only.",
     "runtime monitoring: reference-model oracle over source x repeat x drain-schedule cases", "3/C16", "sources")
 add("C19", "exploration",
-    "The harness defines blocks with #[derive(rustradio_macros::Block)] (compiled with the working tree's macro crate): sync mode with 1..3 inputs x 1..3 outputs (default and into fields, a distinct output function and element type per output) and sync_tag mode (1x1 and 2x2 adding tags), and a non-sync derived block with packet and sample streams. Under drip-feed schedules with deliberately uneven inputs and output space every work() call is checked through the stream hooks: every input consumed and every output produced exactly min(shortest input, smallest output space); a wait verdict names an empty input / a full output; outputs arrive in declaration order with the right function; the first input's tags (plus added ones) reach every output once. The generated eof() is evaluated over all subsets of ended/drained inputs (3 copy inputs; copy + packet input), and new() must return packet and sample read ends in declaration order.",
+    "The harness defines blocks with #[derive(rustradio_macros::Block)] (compiled with the working tree's macro crate): sync mode with 1..3 inputs x 1..3 outputs (default and into fields, a distinct output function and element type per output) and sync_tag mode (1x1 and 2x2 adding tags), and a non-sync derived block with packet and sample streams. Under drip-feed schedules with deliberately uneven inputs and output space every work() call is checked through the stream hooks: every input consumed and every output produced exactly min(shortest input, smallest output space); a wait verdict names an empty input / a full output; outputs arrive in declaration order with the right function; the first input's tags (plus added ones) reach every output once. The generated eof() is evaluated over all subsets of ended/drained inputs (3 copy inputs; copy + packet input), and new() must return packet and sample read ends in declaration order. A block with into / plain / into fields of one type checks that constructor arguments arrive in declaration order.",
     "Only arities up to 3x3 and the attribute combinations listed. A macro defect that breaks compilation for some arity makes the whole harness build fail (reported as inconclusive, as happened for 3 inputs before the fix).",
     "runtime monitoring: per-call conservation oracle over hook events for harness-defined derived blocks", "3/C19", "drip-feed")
 add("C15", "exploration",
@@ -82,7 +82,7 @@ add("C18", "fault_enumeration",
     "Mapping failures are the four enumerated kinds; leak detection is process-wide, so histories run one at a time per worker. munmap failure (which the code turns into a panic) is not injected.",
     "runtime monitoring with fault injection: /proc mapping and descriptor accounting, LD_PRELOAD mmap failures, RLIMIT_AS", "3/C18", "mappings")
 add("C12", "exploration",
-    "Inputs carry uniquely keyed tags (0-5 per sample, clustered at likely split points); under drip-feed schedules the multiset (key, value, absolute output index) seen at the output must equal the expected mapping: identity for one-to-one blocks (first input only for multi-input blocks), both outputs of Tee, +delay for Delay, index/decimation for FirFilter, minus skip for Skip, identity for Hilbert/FftFilter/FftFilterFloat; added tags of VectorSource, CorrelateAccessCodeTag, BurstTagger, VecToStream on exactly the specified samples.",
+    "Inputs carry uniquely keyed tags (0-5 per sample, clustered at likely split points); under drip-feed schedules the multiset (key, value, absolute output index) seen at the output must equal the expected mapping: identity for one-to-one blocks (first input only for multi-input blocks), both outputs of Tee, +delay for Delay, index/decimation for FirFilter, minus skip for Skip, identity for Hilbert/FftFilter/FftFilterFloat; added tags of VectorSource, CorrelateAccessCodeTag, BurstTagger, VecToStream on exactly the specified samples. Inputs also carry twin tags (same key and value twice on one sample or on neighbours): tags are a multiset.",
     "Blocks documented as dropping tags (RationalResampler, RtlSdrDecode, AU codec, ...) are not judged. Tags on samples that never reach the output (FIR history tail) are expected to be absent.",
     "runtime monitoring: exactly-once oracle over uniquely tagged inputs", "3/C12", "drip-feed")
 
